@@ -91,6 +91,7 @@ def run(ctx):
     ctx.assumptions += ["excluded as the property grants: a 12:xx clock time directly followed by German 'am <day>'",
                         "homographs of the frozen lexicon (morgen) are not used as day forms"]
     ctx.mc("MC_Denote", "MC_Denote_C20_q.cfg" if ctx.quick else "MC_Denote_C20_t.cfg", timeout=3000)
+    common.random_rows_stage(ctx, "C20")
     days = day_forms(ctx.quick)
     clocks = clock_choices(ctx.quick)
     tss = [(2018, 3, 7, 12, 43)] if ctx.quick else [(2018, 3, 7, 12, 43), (2019, 12, 31, 23, 59), (2020, 2, 29, 0, 0)]
